@@ -204,6 +204,40 @@ def check_pair(col, fam, a, b, sa, strict=None):
     return strict, pre
 
 
+def schemeless_pairs(col):
+    """u and v written WITHOUT a scheme (the library reads them as http, both of them): the hierarchy is the same, also when v quotes another URL in
+    its query or fragment (a share / redirect link: '://' further down the string is no scheme of v)"""
+    hosts = ("a.com", "www.a.com", "a.co.uk", "localhost", "lemonde.fr:8080")
+    for h in hosts:
+        for path in ("", "/share", "/a/b"):
+            u = h + path
+            for tail in ("?u=https://lefigaro.fr/article", "#http://liberation.fr", "/x?next=http://b.com/y", "?q=1", "/c#f", "?a=b://c"):
+                v = u + tail
+                for sa in (False, True):
+                    ru, rv = call(lru_stems, u, suffix_aware=sa), call(lru_stems, v, suffix_aware=sa)
+                    su, sv = call(url_to_lru, u, suffix_aware=sa), call(url_to_lru, v, suffix_aware=sa)
+                    if ru[0] != "ok" or rv[0] != "ok" or su[0] != "ok" or sv[0] != "ok":
+                        continue
+                    cu, cv = [x for x in ru[1] if x != "p:"], [x for x in rv[1] if x != "p:"]
+                    col.count("ancestor-stems-prefix")
+                    col.nontriv(("schemeless", u, tail, sa))
+                    inp = {"u": u, "v": v, "suffix_aware": sa}
+                    if cv[:len(cu)] != cu:
+                        col.violation("ancestor-stems-prefix", F_STEMS, inp, {"stems_u": cu, "stems_v": cv},
+                                      "v lies under u (both scheme-less), so stems_u (empty path stems aside) must be a list prefix of stems_v")
+                    # scheme-less and 'http://' spellings are the same URL for lru_stems
+                    rh = call(lru_stems, "http://" + v, suffix_aware=sa)
+                    col.count("schemeless-is-http")
+                    if rh[0] == "ok" and rh[1] != rv[1]:
+                        col.violation("ancestor-stems-prefix", F_STEMS, dict(inp, u="http://" + v), {"stems_v": rv[1], "stems_of_http_spelling": rh[1]},
+                                      "a URL written without scheme is read as http: same stems as its 'http://' spelling")
+                    if "" not in path.split("/")[1:]:
+                        col.count("ancestor-serialized-prefix-raw")
+                        if not sv[1].startswith(su[1]):
+                            col.violation("ancestor-serialized-prefix-raw", "ural.lru.conversion.url_to_lru", inp, {"lru_u": su[1], "lru_v": sv[1]},
+                                          "v lies under u (both scheme-less) and u has no empty path segment, so url_to_lru(u) must be a string prefix of url_to_lru(v)")
+
+
 # ---------------------------------------------------------------------------------------------- workers
 _CACHE = {}
 
@@ -317,6 +351,11 @@ def main():
         rp = json.load(open(a.replay))
         inp = rp["input"]
         col.rule = "replay"
+        if "://" not in inp["u"].split("?")[0].split("#")[0] or "://" not in inp["v"].split("?")[0].split("#")[0]:
+            # a witness of the scheme-less block: that (small, fixed) block is run again
+            schemeless_pairs(col)
+            col.dump(a.out)
+            return
         ru, rv = parse(inp["u"]), parse(inp["v"])
         sa = bool(inp.get("suffix_aware", False))
         if ru is None or rv is None or ru.userinfo is not None or rv.userinfo is not None:
@@ -372,6 +411,7 @@ def main():
                 "distinct_nontrivial = distinct (antecedent-true) pair shapes: (forward antecedent, converse antecedent, flag, host relation, "
                 "path relation, u's host, query/fragment presence on u and v, u without empty segment) + antecedent-true shapes per random group"
                 % (n, len(SCHEMES), len(PORTS), len(hosts), len(paths), len(qfs), 2 * n * n, 16 * ngroups))
+    schemeless_pairs(col)
     history.run(col, "C13", a.tier == "quick")
     col.dump(a.out)
 
